@@ -238,6 +238,7 @@ func (g *gen) request(depth int, enclosing map[string]bool) []Macro {
 		if m.Op == "tok" && enclosing[flightKey(rig.UnHex(m.Host), rig.UnHex(m.Tok))] {
 			return nil
 		}
+		g.bind(&m, depth, enclosing)
 		ops := []Macro{m}
 		if len(g.stopped) > 0 {
 			ops = append(ops, g.ev(Ev{E: "dropStopped"}))
@@ -279,11 +280,33 @@ func (g *gen) request(depth int, enclosing map[string]bool) []Macro {
 			m.Mid = g.mid(depth, enclosing, host)
 		}
 	}
+	g.bind(&m, depth, enclosing)
 	ops := []Macro{m}
 	if len(g.stopped) > 0 {
 		ops = append(ops, g.ev(Ev{E: "dropStopped"}))
 	}
 	return ops
+}
+
+// bind: a third of the requests pass the real WithUpstreamInfo first; a quarter of those see events (mostly their own
+// host changing hands) before the authenticator / authorizer resolves the host again.
+func (g *gen) bind(m *Macro, depth int, enclosing map[string]bool) {
+	if g.r.Intn(100) >= 34 {
+		return
+	}
+	m.Bound = true
+	g.feat["bound"] = true
+	if g.r.Intn(100) < 28 {
+		g.feat["bound+mid0"] = true
+		enc := map[string]bool{}
+		for k := range enclosing {
+			enc[k] = true
+		}
+		if m.Op == "tok" {
+			enc[flightKey(rig.UnHex(m.Host), rig.UnHex(m.Tok))] = true // (not yet in flight, but keep nested requests distinct)
+		}
+		m.Mid0 = g.mid(depth, enc, rig.UnHex(m.Host))
+	}
 }
 
 // flightKey: requests with the same Hostname and token share one lookup of the token cache (singleflight); a
